@@ -45,6 +45,7 @@ ASSUMPTIONS = [
 ]
 
 ESCAPE_CHARS = set('"\\')
+_TIMEOUTS: list = []  # parses that hit the per-call budget (reported as inconclusive)
 
 
 def _short(cls) -> str:
@@ -66,10 +67,13 @@ def parse_back(text: str, as_type: bool):
     ctx = Context()
     ctx.load_dialect(Builtin)
     try:
-        with quiet():
+        with quiet(), G.time_limit():
             p = Parser(ctx, text)
             b = p.parse_type() if as_type else p.parse_attribute()
             trailing = p._current_token.kind is not MLIRTokenKind.EOF
+    except G.ParseTimeout:
+        _TIMEOUTS.append(text[:80])
+        return ("timeout", "")
     except ParseError as e:
         msg = str(e).strip().splitlines()
         return ("parse_error", msg[-1].strip() if msg else "")
@@ -83,6 +87,8 @@ def parse_back(text: str, as_type: bool):
 def check_one(a, text: str, as_type: bool):
     """None if the round trip holds, else (kind, detail)."""
     res = parse_back(text, as_type)
+    if res[0] == "timeout":  # budget hit: no verdict (time is C07's property)
+        return None
     if res[0] != "ok":
         return (res[0], res[1])
     _, b, trailing = res
@@ -129,6 +135,18 @@ def blame(r):
     for c in G.children(r):
         inner += blame(c)
     return inner or [(r, a, text, f)]
+
+
+def print_blame(r):
+    """Innermost sub-recipe whose printing raises (other than NotImplementedError)."""
+    for c in G.children(r):
+        try:
+            str(G.build(c))
+        except NotImplementedError:
+            continue
+        except Exception:
+            return print_blame(c)
+    return r, G.build(r)
 
 
 # ------------------------------------------------------------------------------------------------
@@ -358,6 +376,14 @@ def run_recipe(h, r, label):
         if counting:
             h.discard("print_not_implemented:" + type(a).__name__)
         return
+    except RecursionError:
+        raise
+    except Exception as e:  # the printer crashed on a value its own verifier accepted
+        br, ba = print_blame(r)
+        sig = {"check": "roundtrip", "cls": type(ba).__name__,
+               "kind": "print_crash:" + type(e).__name__, "entry": "print", "value_class": "-"}
+        h.mismatch(sig, br, f"printing {ba!r:.300} raised {e!r:.200}")
+        return
     if counting:
         feats = features(r)
         if G.depth(r) >= 2:
@@ -366,7 +392,11 @@ def run_recipe(h, r, label):
                sample={"recipe": r, "text": text[:300]})
         for f in sorted(feats):
             h.count("feature:" + f)
-    for br, ba, btext, (entry, kind, detail) in blame(r):
+    n_to = len(_TIMEOUTS)
+    blamed = blame(r)
+    if len(_TIMEOUTS) > n_to and counting:
+        h.inconclusive("parse_timeout", len(_TIMEOUTS) - n_to)
+    for br, ba, btext, (entry, kind, detail) in blamed:
         sig = {"check": "roundtrip", "cls": type(ba).__name__, "kind": kind, "entry": entry}
         sig.update(describe(br, ba, btext))
         if kind.startswith("parse_"):
